@@ -13,7 +13,6 @@ import fcntl
 import os
 import subprocess
 import sys
-import time
 
 from ..engine import Part, Fail, Driver, Inconclusive, main, canon, h, TARGET, VERIF
 from ..oracles import c20_model as M
